@@ -159,8 +159,9 @@ def before_in_collapsed(I, a, b, top=None):
     return I.g.dominates(I.dominators(), ga, gb)
 
 
-def every_path_to(I, gid, ok_at, depth=400):
-    """every taken normal path from the entry to node gid passes through a node satisfying ok_at(gid) (checked backwards over joins)"""
+def every_path_to(I, gid, ok_at, depth=400, ok_edge=None):
+    """every taken normal path from the entry to node gid passes through a node satisfying ok_at(gid) (checked backwards over joins);
+    ok_edge(pred, node): the path arriving over that edge is excused (the facts that hold on the edge make the obligation void)"""
     entry = I.g.entry.bmap[0]
     seen = {}
 
@@ -178,7 +179,12 @@ def every_path_to(I, gid, ok_at, depth=400):
         if not preds:
             seen[g] = False
             return False
-        r = all(rec(p, d - 1) for p in preds)
+        r = all((ok_edge is not None and ok_edge(p, g)) or rec(p, d - 1) for p in preds)
         seen[g] = r
         return r
     return rec(gid, depth)
+
+
+def edge_facts(I, p, g):
+    st = I.out_states.get((p, g))
+    return st.facts if st is not None else frozenset()
